@@ -76,7 +76,10 @@ class Mem2RegPromotor(FunctionPass):
         idx = 0
         while block_backlog:
             defining_block = block_backlog.pop()
-            for frontier_block in cfg_info.df[defining_block]:
+            frontier = sorted(
+                cfg_info.df[defining_block], key=lambda block: block.name
+            )
+            for frontier_block in frontier:
                 if frontier_block not in has_phi:
                     has_phi.add(frontier_block)
                     block_backlog.add(frontier_block)
